@@ -327,9 +327,12 @@ namespace GeographicLib {
 
     // Correct the UTM northing and hemisphere if necessary
     if (utmp) {
-      if (northp && iy < minutmNrow_) {
+      // y < 0 catches tiny negative y for which y / tile_ underflows to -0
+      if (northp && (iy < minutmNrow_ || y < 0)) {
         northp = false;
         y += utmNshift_;
+        // For -eps/2 < y < 0 the sum rounds to the excluded upper end
+        if (y == utmNshift_) y -= eps;
       } else if (!northp && iy >= maxutmSrow_) {
         if (y == maxutmSrow_ * tile_)
           // If on equator retain S hemisphere
